@@ -117,7 +117,7 @@ BIG = 2000      # from this size on a case costs seconds of vm_compute: such cas
 PERIODIC = 100  # from this size on arrays are periodic (closed form) and are passed to Coq as one period
 
 
-def lincomb_case(rng, dtype, shape, layouts, alias, a, b, poison):
+def lincomb_case(rng, dtype, shape, layouts, alias, a, b, poison, full=False):
     """Run space.lincomb on the real implementation; returns (coq term, description, key, carrier)."""
     import odl
     base, fl, bdt, tol = DT[dtype]
@@ -170,8 +170,18 @@ def lincomb_case(rng, dtype, shape, layouts, alias, a, b, poison):
     assert res is els[iout]
     after = [np.asarray(e.data) for e in els]
 
+    PAT = 455
+    sized = n >= BIG and full is False
+    if sized:       # one period suffices if every array (before and after) is periodic
+        for arr in before + after:
+            fl_ = np.asarray(arr).ravel()
+            if not np.array_equal(np.resize(fl_[:PAT], n), fl_, equal_nan=True):
+                sized = False
+
     def buf_term(k, arr, is_before):
         flat = np.asarray(arr).ravel()        # logical (C-order) flattening
+        if sized:
+            return lits(carrier, flat[:PAT])
         if not big:
             return lits(carrier, flat)
         if is_before and k in poisoned:
@@ -183,15 +193,15 @@ def lincomb_case(rng, dtype, shape, layouts, alias, a, b, poison):
                 return '(cyc %d %s)' % (n, lits(carrier, pat))
         return lits(carrier, flat)
 
-    term = ('mkL %s %s %s (%d, %d, %d)%%nat %s %s [%s] [%s]'
+    term = ('mkL %s %s %s (%d, %d, %d)%%nat %d %s %s [%s] [%s]'
             % (C.b(fl), C.b(bdt),
                '[' + '; '.join('(%s, %s)' % (C.b(c), C.b(f)) for c, f in flags) + ']',
-               ix1, ix2, iout, lit(carrier, pa), lit(carrier, pb),
+               ix1, ix2, iout, n if sized else 0, lit(carrier, pa), lit(carrier, pb),
                '; '.join(buf_term(k, before[k], True) for k in range(3)),
                '; '.join(buf_term(k, after[k], False) for k in range(3))))
     reg = predicted_regime(n, fl, bdt, flags)
     desc = {'op': 'lincomb', 'dtype': dtype, 'shape': list(shape), 'layouts': ''.join(layouts), 'alias': alias,
-            'a': str(a), 'b': str(b), 'poison': poison or '', 'regime': reg}
+            'a': str(a), 'b': str(b), 'poison': poison or '', 'regime': reg, 'whole_array_in_coq': not sized}
     key = (dtype, tuple(shape), ''.join(layouts), alias, str(a), str(b), poison or '', reg)
     return term, desc, key, carrier, tol
 
@@ -219,7 +229,7 @@ class Sets(object):
         name = '%s_%s_%s' % (prefix, dtype, carrier)
         if prefix == 'sp':          # one check term (tolerance) per set
             name += '_e%d' % len(str(tol.denominator))
-        if n >= BIG:
+        if n >= BIG and desc.get('whole_array_in_coq', True):
             k = self.nbig.get(name, 0)
             self.nbig[name] = k + 1
             name = '%s_big%d' % (name, k // BIG_CHUNK)
@@ -248,9 +258,9 @@ def lincomb_cases(rng, tier, S):
         pairs = {'real': REAL_PAIRS, 'cx': CX_PAIRS, 'int': INT_PAIRS}[base]
         main = dtype in ('float64', 'complex128')
 
-        def run(shape, alias, a, b, poison=None, want_blas=False):
+        def run(shape, alias, a, b, poison=None, want_blas=False, full=False):
             lay = layout_choice(rng, len(shape), want_blas)
-            S.put('lin', dtype, lincomb_case(rng, dtype, shape, lay, alias, a, b, poison))
+            S.put('lin', dtype, lincomb_case(rng, dtype, shape, lay, alias, a, b, poison, full))
 
         # A. every (alias, scalar pair) combination in the direct and the fallback regime
         for shape in ([(3,), (120,)] if base == 'int' else [(3,), (100,)]):
@@ -261,14 +271,15 @@ def lincomb_cases(rng, tier, S):
         #    regime (covered exhaustively in A); here the three BLAS primitives, the regime rule and
         #    the ravel order are exercised.  Each case costs ~2 s of vm_compute, hence the small numbers.
         if bdt:
-            nb = (3 if main else 1) if quick else (10 if main else 4)
+            nb = (8 if main else 3) if quick else (len(pairs) if main else 8)
             for alias in ALIAS:
-                for a, b in rng.sample(pairs, nb):
-                    run((50000,), alias, a, b, want_blas=True)
-            if dtype == 'float64' or not quick:
+                for j, (a, b) in enumerate(rng.sample(pairs, nb)):
+                    # the whole 50000-entry arrays are evaluated inside Coq for one case per alias pattern
+                    run((50000,), alias, a, b, want_blas=True, full=(j == 0 and main))
+            if main or not quick:
                 for shape in edge:
                     for alias in ALIAS:
-                        for a, b in rng.sample(pairs, 1 if quick else 2):
+                        for a, b in rng.sample(pairs, 2 if quick else 4):
                             run(shape, alias, a, b, want_blas=rng.random() < 0.7)
         # B2. >= 50000 entries where BLAS must NOT be used: strided / mixed-order arrays, non-BLAS dtypes
         #     (a wrong dispatch leaves `out` unchanged or pairs entries in different orders)
@@ -490,6 +501,23 @@ def space_case(rng, recipe, op, poison=False):
     c = rng.choice(DIV_SC if op in ('itruediv_s', 'truediv_s') else scs)
     if op == 'rtruediv_s':
         x = mk_element(rng, recipe, 'div')
+    def nanfill(el):
+        for t in leaf_tensors(el):
+            t.data[...] = np.nan
+    z = None
+    lc1_out = None
+    if op in ('lincomb2', 'multiply', 'divide'):
+        z = mk_element(rng, recipe, kind)
+        alias = rng.choice(sorted(ALIAS))
+        if poison and bases.isdisjoint({'int'}) and ALIAS[alias][2] not in ALIAS[alias][:2]:
+            nanfill([x, y, z][ALIAS[alias][2]])       # old contents of a non-operand out: garbage
+    if poison and op == 'assign' and not same and y is not x \
+            and not any(a_ is b_ for a_ in leaf_tensors(x) for b_ in leaf_tensors(y)):
+        nanfill(x)
+    if op == 'lincomb1':
+        lc1_out = x if rng.random() < 0.4 else y
+        if poison and lc1_out is not x and not any(a_ is b_ for a_ in leaf_tensors(x) for b_ in leaf_tensors(y)):
+            nanfill(y)
     tx = ctx.term(x)
     ty = ctx.term(y)
     desc = {'op': op, 'space': repr(recipe), 'same': same, 'poison': poison}
@@ -500,10 +528,8 @@ def space_case(rng, recipe, op, poison=False):
     with np.errstate(all='ignore'):
         try:
             if op in ('lincomb2', 'multiply', 'divide'):
-                z = mk_element(rng, recipe, kind)
                 tz = ctx.term(z)
                 els, tms = [x, y, z], [tx, ty, tz]
-                alias = rng.choice(sorted(ALIAS))
                 i1, i2, io = ALIAS[alias]
                 desc['alias'] = alias
                 if op == 'lincomb2':
@@ -518,7 +544,7 @@ def space_case(rng, recipe, op, poison=False):
                     res = space.divide(els[i1], els[i2], out=els[io])
                     wop = 'WDivide %s %s %s' % (tms[i1], tms[i2], tms[io])
             elif op == 'lincomb1':
-                out = x if rng.random() < 0.4 else y
+                out = lc1_out
                 desc['a'] = str(c)
                 res = space.lincomb(c, x, out=out)
                 wop = 'WLincomb1 %s %s %s' % (cl(c), tx, ctx.term(out))
